@@ -570,7 +570,9 @@ class FnOverlay:
         fo, it = self.fo, self.it
         recv = [p for p in it["params"] if "recv" in p]
         if not recv or not recv[0]["recv"].replace(" ", "").startswith("mutself"):
-            raise AnchorLost(f"demut_self: {self.path} has no `mut self` receiver")
+            # D-rules are optional: without a `mut self` receiver there is nothing to rename and Verus takes the fn as it stands
+            fo.records.append({"file": fo.rel, "kind": f"D7: NOT APPLIED ({self.path} has no `mut self` receiver)"})
+            return self
         rs, re_ = recv[0]["span"]
         fo.replace(rs, re_, "self", note=f"D7: `mut self` => `self` + `let mut slf = self;` (alpha-renaming) in {self.path}")
         bs, be = it["body_start"], it["body_end"]
